@@ -73,6 +73,19 @@ CLAIMS = {
              "the acceptance monitors of C09/C13/C15 only.",
         technique="Lean 4 program-equality theorem for gating + two-phase (validate/commit) proof per function over demonic chip answers + trace monitors",
         design="7 C10"),
+    'C11': dict(
+        text="Proof for the structural clauses, fault enumeration for the behaviour after recovery. Theorems: C11_failed_transfer_ends_call "
+             "(every public function but the void handler, every argument and handle, every answer of chip and bus: at every request the "
+             "continuation for a failed transfer is literally 'return code' — no further request, hence no further write, and the caller gets "
+             "the transfer's code; sole exemption the documented SNR read, C11_exemption_is_snr_read, after which nothing is written either), "
+             "C11_no_delivery_after_failed_transfer (one handler invocation, LoRa/FSK/OOK, any flags and packet: the receive callback is never "
+             "invoked after any of its transfers failed), C11_fsk_header_is_transactional and C11_lora_read_is_transactional (a failure while "
+             "the per-packet state is being established leaves the handle exactly as it was), C11_cache_after_failures (C01). "
+             "'Subsequent packets are received and transmitted correctly' is decided by scripts that fail one or two transfers at each index of "
+             "the packet paths (LoRa and FSK/OOK reception, FSK/OOK transmission) and of each API call and then run fault-free traffic against "
+             "the delivery monitors; two defects found this way were repaired (see known_findings.json).",
+        technique="Lean 4 structural theorems over all answers (values and failures) of chip and bus + fault injection at each transfer index with recovery traffic",
+        design="7 C11"),
     'C13': dict(
         text="Proof. Theorems Sx.C13_set_bandwidth, C13_set_spreading_factor, C13_override and their liftings to the cached build after any "
              "history (C13_bandwidth_cached, C13_spreading_factor_cached, via the bridge step_cached_of_wp = C02 + C01): for each of the ten "
